@@ -26,8 +26,9 @@ type c09Op struct {
 	K    string `json:"k"`              // snap | need_full | reap | reopen
 	Kind string `json:"kind,omitempty"` // snap: due (what DueNext asks for) | full | install | inc (incremental regardless of DueNext)
 	N    int    `json:"n,omitempty"`    // incremental: WAL files wanted in the snapshot
-	End  string `json:"end,omitempty"`  // close | cancel | trunc | flip | err | crash
-	At   int    `json:"at,omitempty"`   // err/crash: which hook occurrence inside Close; trunc/flip/cancel: position selector
+	End  string `json:"end,omitempty"`  // close | cancel | trunc | flip | trail | garbage | err | crash
+	Fin  string `json:"fin,omitempty"`  // how a sink whose Write failed is finished: cancel | close | close_cancel | close_close | cancel_close
+	At   int    `json:"at,omitempty"`   // err/crash: which hook occurrence inside Close; trunc/flip/cancel/trail/garbage: position/length selector
 	W    int    `json:"w,omitempty"`    // statements written before
 }
 
@@ -52,11 +53,15 @@ func c09Gen(r *core.Rand, tier string) any {
 				op.End = "close"
 			case y < 60:
 				op.End = "cancel"
-			case y < 68:
+			case y < 66:
 				op.End = "trunc"
-			case y < 75:
+			case y < 72:
 				op.End = "flip"
-			case y < 85:
+			case y < 76:
+				op.End = "trail"
+			case y < 79:
+				op.End = "garbage"
+			case y < 87:
 				op.End = "err"
 			default:
 				if crashes < 3 {
@@ -66,6 +71,7 @@ func c09Gen(r *core.Rand, tier string) any {
 					op.End = "close"
 				}
 			}
+			op.Fin = c09Fins[r.Intn(len(c09Fins))]
 			sc.Ops = append(sc.Ops, op)
 		case x < 80:
 			sc.Ops = append(sc.Ops, c09Op{K: "need_full"})
@@ -77,6 +83,10 @@ func c09Gen(r *core.Rand, tier string) any {
 	}
 	return sc
 }
+
+// ways to finish a sink whose Write returned an error (raft cancels; the sink
+// itself must be safe whichever way it is finished)
+var c09Fins = []string{"cancel", "close", "close_cancel", "close_close", "cancel_close"}
 
 // abstract catalog
 type c09Snap struct {
@@ -405,35 +415,16 @@ func c09Snapshot(c *core.Ctx, op c09Op, i int, stp **snapshot.Store, src *snapsi
 		limit = int64(op.At) % int64(len(payload)) // strictly shorter than the payload
 	case "flip":
 		flip = int64(op.At) % int64(len(payload))
+	case "trail":
+		// bytes after the declared payload (after an incremental header no data may follow)
+		payload = append(append([]byte(nil), payload...), rng.Bytes(1+op.At%40)...)
+	case "garbage":
+		// a length prefix followed by bytes that are not a snapshot header
+		g := rng.Bytes(4 + op.At%60)
+		payload = append([]byte{0, 0, 0, byte(len(g))}, g...)
+		payload = append(payload, rng.Bytes(op.At%30)...)
 	}
 	_, werr := snapsim.Pump(sink, bytes.NewReader(payload), rng, limit, flip)
-
-	// an incremental offered while a full snapshot is required must be refused
-	if kind == "inc" && needFullBefore {
-		c.Probe("incremental_while_full_needed")
-		if werr == nil && end != "trunc" && end != "cancel" {
-			// the sink took the header without complaint: closing it must not install anything
-			cerr := sink.Close()
-			if cerr == nil {
-				all, _ := st.ListAll()
-				for _, mt := range all {
-					if mt.Index == snap.index {
-						c.Violate("incremental-accepted", "%s: an incremental snapshot was accepted and installed while a full snapshot is required (flag set: %v, snapshots: %d)",
-							when, m.fullNeeded, len(m.snaps))
-						return
-					}
-				}
-			}
-		} else {
-			sink.Cancel()
-		}
-		c.Log.Add("%s -> refused (%v)", when, werr != nil)
-		if werr != nil {
-			c.Probe("incremental_refused")
-		}
-		verify(when, false)
-		return
-	}
 
 	fullKindFailed := func() {
 		// what the store does when a snapshot it had to checkpoint for did not make it: ask for a full one
@@ -453,14 +444,142 @@ func c09Snapshot(c *core.Ctx, op c09Op, i int, stp **snapshot.Store, src *snapsi
 			src.StagingMoved()
 		}
 	}
+	visible := func(s *snapshot.Store) bool {
+		all, _ := s.ListAll()
+		for _, mt := range all {
+			if mt.Index == snap.index {
+				return true
+			}
+		}
+		return false
+	}
+	// restart replaces the store directory by a crash image and starts a new
+	// instance on it; the catalog decides whether the snapshot made it.
+	restart := func(im crash.Image) {
+		c.Probe("crash_at_" + im.Point)
+		c.Log.Add("%s -> crash image at hit %d (%s)", when, im.N, im.Point)
+		st.Close()
+		*stp = nil
+		if err := crash.Restore(im.Dir, root); err != nil {
+			panic(err)
+		}
+		s2, err := snapsim.OpenStore(root)
+		if err != nil {
+			c.Violate("open-failed", "%s: NewStore after the crash failed: %s; dir: %s", when, scrub(err), snapsim.Listing(root))
+			return
+		}
+		*stp = s2
+		if _, err := s2.ListAll(); err != nil {
+			c.Violate("listall-failed", "%s: ListAll after the crash: %s; dir: %s", when, scrub(err), snapsim.Listing(root))
+			return
+		}
+		if visible(s2) {
+			m.snaps = append(m.snaps, snap)
+			c.Probe("crashed_close_left_complete_snapshot")
+			if snap.full {
+				// the flag may or may not have been cleared yet; both are fine once the snapshot is installed
+				d, _ := s2.DueNext()
+				m.fullNeeded = m.fullNeeded && d == snapshot.Full
+			}
+		} else {
+			c.Probe("crashed_close_left_nothing")
+		}
+		if !verify(when+" after restart", true) {
+			return
+		}
+		rebase()
+	}
 
-	if werr != nil {
-		// a write error: raft cancels the sink
-		sink.Cancel()
-		c.Log.Add("%s -> write error", when)
-		c.Probe("sink_write_error")
+	gated := kind == "inc" && needFullBefore
+	if gated {
+		c.Probe("incremental_while_full_needed")
+		if werr != nil {
+			c.Probe("incremental_refused")
+		}
+	}
+
+	// A sink whose Write returned an error - the refused incremental, data after an
+	// incremental header, a header that does not parse, more data than declared -
+	// and an incremental offered while a full snapshot is required, however far its
+	// header got. raft cancels such a sink, but whichever way it is finished
+	// (Cancel, Close, Close then Cancel, Close twice, Cancel then Close) the refusal
+	// must stand: a refused incremental and an unparsable header leave the catalog
+	// and the full-needed flag exactly as they were.
+	if werr != nil || gated {
+		fin := op.Fin
+		if fin == "" {
+			fin = c09Fins[op.At%len(c09Fins)]
+		}
+		if werr == nil && (end == "trunc" || end == "cancel") {
+			fin = "cancel" // header incomplete: nothing was refused yet, the caller gives up
+		}
+		c.Probe("rejected_sink_finished_by_" + fin)
+		if werr != nil {
+			c.Probe("sink_write_error")
+		}
+		rec := crash.NewRecorder(root, filepath.Join(c.Dir, "img", fmt.Sprintf("op%03dr", i)))
+		rec.Want = func(crash.Hit) bool { return false }
+		fatal := false
+		rec.OnFatal = func(point string, err error) bool { fatal = true; return true }
+		rec.Install()
+		var errs []string
+		for _, step := range strings.Split(fin, "_") {
+			var e error
+			if step == "close" {
+				e = sink.Close()
+			} else {
+				e = sink.Cancel()
+			}
+			errs = append(errs, fmt.Sprintf("%s:%v", step, e != nil))
+			if fatal {
+				break
+			}
+		}
+		rec.Uninstall()
+		if rec.Err != nil {
+			panic(rec.Err)
+		}
+		defer rec.Drop()
+		c.Log.Add("%s -> write error=%v, finished by %s", when, werr != nil, strings.Join(errs, " "))
+		strict := gated || end == "garbage"
+		if fatal {
+			// an incremental close failed and the process exits
+			c.Fault("fatal_exit_in_incremental_close")
+			if strict {
+				// ... but a refused sink has no business on the incremental close path at all
+				c.Violate("rejected-sink-closed-as-incremental", "%s: Close of a sink whose Write was refused went down the incremental close path and failed fatally", when)
+				return
+			}
+			restart(rec.Images[len(rec.Images)-1])
+			return
+		}
+		if visible(st) {
+			if strict && werr == nil {
+				c.Violate("incremental-accepted", "%s: an incremental snapshot was accepted by Write and installed by %s while a full snapshot is required (flag set: %v, snapshots: %d)",
+					when, fin, m.fullNeeded, len(m.snaps))
+				return
+			}
+			if strict {
+				c.Violate("rejected-sink-installed", "%s: Write returned an error (%v) but finishing the sink by %s installed snapshot %d/%d (full required: %v, flag set: %v, snapshots before: %d); dir: %s",
+					when, werr, fin, snap.index, snap.term, needFullBefore, m.fullNeeded, len(m.snaps), snapsim.Listing(root))
+				return
+			}
+			// a complete payload followed by junk: the junk was refused by Write, the
+			// snapshot itself is whole; it is checked like any other
+			m.snaps = append(m.snaps, snap)
+			if snap.full {
+				d, _ := st.DueNext()
+				m.fullNeeded = m.fullNeeded && d == snapshot.Full
+				src.ClearStaging()
+			} else {
+				src.StagingMoved()
+			}
+			c.Probe("write_error_then_close_left_complete_snapshot")
+			verify(when, true)
+			return
+		}
 		fullKindFailed()
-		verify(when, false)
+		verify(when, strict)
 		return
 	}
 
@@ -501,16 +620,6 @@ func c09Snapshot(c *core.Ctx, op c09Op, i int, stp **snapshot.Store, src *snapsi
 		panic(rec.Err)
 	}
 	defer rec.Drop()
-	visible := func(s *snapshot.Store) bool {
-		all, _ := s.ListAll()
-		for _, mt := range all {
-			if mt.Index == snap.index {
-				return true
-			}
-		}
-		return false
-	}
-
 	if !fatal && end != "crash" {
 		c.Log.Add("%s -> close err=%v", when, cerr != nil)
 		if cerr == nil && (end == "close" || end == "err") {
@@ -573,39 +682,7 @@ func c09Snapshot(c *core.Ctx, op c09Op, i int, stp **snapshot.Store, src *snapsi
 		im = rec.Images[op.At%len(rec.Images)]
 		c.Fault("crash_in_close")
 	}
-	c.Probe("crash_at_" + im.Point)
-	c.Log.Add("%s -> crash image at hit %d (%s)", when, im.N, im.Point)
-	st.Close()
-	*stp = nil
-	if err := crash.Restore(im.Dir, root); err != nil {
-		panic(err)
-	}
-	s2, err := snapsim.OpenStore(root)
-	if err != nil {
-		c.Violate("open-failed", "%s: NewStore after the crash failed: %s; dir: %s", when, scrub(err), snapsim.Listing(root))
-		return
-	}
-	*stp = s2
-	// the snapshot either made it completely or not at all; the catalog tells which
-	if _, err := s2.ListAll(); err != nil {
-		c.Violate("listall-failed", "%s: ListAll after the crash: %s; dir: %s", when, scrub(err), snapsim.Listing(root))
-		return
-	}
-	if visible(s2) {
-		m.snaps = append(m.snaps, snap)
-		c.Probe("crashed_close_left_complete_snapshot")
-		if snap.full {
-			// the flag may or may not have been cleared yet; both are fine once the snapshot is installed
-			d, _ := s2.DueNext()
-			m.fullNeeded = m.fullNeeded && d == snapshot.Full
-		}
-	} else {
-		c.Probe("crashed_close_left_nothing")
-	}
-	if !verify(when+" after restart", true) {
-		return
-	}
-	rebase()
+	restart(im)
 }
 
 func init() {
